@@ -55,7 +55,7 @@ func c05Gen(tier string, seed int64) []fw.Case {
 	np := 6
 	nrand := 60
 	if tier == "thorough" {
-		nrand = 1500
+		nrand = 12000
 	}
 	for i := 0; i < np; i++ {
 		cs = append(cs, fw.Mk(fmt.Sprintf("publish-boundaries-%d", i), c05Params{Mode: "publish", Part: i, Of: np, N: nrand}))
